@@ -956,7 +956,7 @@ def gen_pairs(ctx):
     k = 3000 if ctx.thorough else 160
     for _ in range(k):
         out.append((copy.deepcopy(rng.choice(uni)), copy.deepcopy(rng.choice(uni)), "universe"))
-    out.extend(shared_row_pairs(rng, 700 if ctx.thorough else 60))
+    out.extend(shared_row_pairs(rng, 400 if ctx.thorough else 60))
     # a fixed fraction of the random pairs carries ONE container object at two positions of t1 and / or t2
     import random
     srng = random.Random(rng.random())
@@ -1198,12 +1198,12 @@ def rough_part(ctx):
     sd_cases = []
     dm_cases = []
     np_cases = []
-    np_cap = 3000 if ctx.thorough else 260
+    np_cap = 2000 if ctx.thorough else 260
     seen_keys = set()
     try:
         for (t1, t2, how) in gen_pairs(ctx):
             cfgs = [CONFIGS[0], CONFIGS[1]] + ([CONFIGS[2]] if (ctx.thorough or rng.random() < 0.5) else []) \
-                + rng.sample(CONFIGS[3:], 2 if ctx.thorough else 1) + [combo_config(crng) for _ in range(2 if ctx.thorough else 1)]
+                + rng.sample(CONFIGS[3:], 2 if ctx.thorough else 1) + [combo_config(crng)]
             for cfg in cfgs:
                 rec.records.clear()
                 ip.clear()
@@ -1455,10 +1455,10 @@ def io_pairs(ctx):
         out.append((copy.deepcopy(b), copy.deepcopy(a), "io_hand"))
     for a, b in c05.FIXED_PAIRS[:(None if ctx.thorough else 12)]:
         out.append((copy.deepcopy(a), copy.deepcopy(b), "c05_fixed"))
-    for _ in range(1200 if ctx.thorough else 60):
+    for _ in range(500 if ctx.thorough else 60):
         a, b, _kinds = c05.gen_pair(rng, alias=False, depth=rng.choice([2, 3]))
         out.append((a, b, "c05_gen"))
-    for _ in range(600 if ctx.thorough else 40):
+    for _ in range(250 if ctx.thorough else 40):
         x = values.gen_value(rng, depth=rng.choice([1, 1, 2]), width=rng.choice([1, 2, 3]), kinds="LTD")
         y, _k = values.edit(rng, copy.deepcopy(x))
         k = rng.randint(2, 9)
@@ -1484,7 +1484,7 @@ def io_model_part(ctx):
         pairs = [(t1, t2, how) for (t1, t2, how) in gen_pairs(sub) if how.split(":")[0] in
                  ("hand", "edit", "multi_edit_list", "shuffled_containers", "universe", "unrelated")]
         rng.shuffle(pairs)
-        pairs = io_pairs(sub) + pairs[:(4000 if ctx.thorough else 110)]
+        pairs = io_pairs(sub) + pairs[:(1500 if ctx.thorough else 110)]
         for i, (t1, t2, how) in enumerate(pairs):
             if how in ("c05_gen", "c05_fixed", "edit", "multi_edit_list", "shuffled_containers") or how.startswith("edit"):
                 a, _sa = maybe_share(rng, t1, 0.25)
@@ -1604,14 +1604,15 @@ def _reference_run(case):
         rec = Recorder()
         rec.install()
         try:
-            d = DeepDiff(copy.deepcopy(t1), copy.deepcopy(t2), get_deep_distance=True, **cfg)
+            tree = DeepDiff(copy.deepcopy(t1), copy.deepcopy(t2), get_deep_distance=True, view="tree", **cfg)
         finally:
             rec.uninstall()
         roots = [r for r in rec.records if r.get("root") and "delta" in r]
         if roots:
             delta = roots[-1]["delta"]
         else:
-            delta, exact = d._to_delta_dict(report_repetition_required=False), False
+            delta, exact = DeepDiff(copy.deepcopy(t1), copy.deepcopy(t2), **cfg)._to_delta_dict(report_repetition_required=False), False
+        return delta, delta_ops(delta), icount(t1) + icount(t2), tree, exact
     tree = DeepDiff(copy.deepcopy(t1), copy.deepcopy(t2), view="tree", **cfg)
     return delta, delta_ops(delta), icount(t1) + icount(t2), tree, exact
 
